@@ -61,6 +61,10 @@ def gen_cases(ctx):
             c["filter"] = None
             c["observers"] = False
         yield c
+    for i in range(ctx.scale(2, 56)):
+        yield {"kind": "history", "instance": gen.long_instance(rng), "filter": gen.gen_filter_spec(rng),
+               "policy": "random_ready", "seed": rng.randrange(2**31), "episodes": 1, "observers": False,
+               "sibling": False, "fork": None}
     for i, name in enumerate(["ft06", "la01"] if ctx.tier == "quick" else ["ft06", "la01", "la02", "orb01", "abz5"]):
         if i % ctx.nshards == ctx.shard:
             yield {"kind": "benchmark_reload", "name": name, "seed": rng.randrange(2**31),
